@@ -37,6 +37,7 @@ import Scc.A64.Backend
 import Scc.RV.Backend
 import Scc.Fun2Core.Hygiene
 import Scc.Fun.ZeroEdge
+import Scc.Fun.MainCall
 import Scc.Props.C14Generic
 import Scc.Pipeline
 import Scc.Pipeline.Links
@@ -144,6 +145,7 @@ def dispatch (line : String) : IO String := do
     let text ← IO.FS.readFile file
     match kind with
     | "seq" => pure (Scc.Fun.sequencedLine text)
+    | "nomaincall" => pure (Scc.Fun.noMainCallLine text)
     | "hyg" => pure (Scc.Fun2Core.hygLine text)
     | "zeroedge" => pure (Scc.Fun.Parse.zeroEdgeLine text)
     | "core" => pure (Scc.Core.runLineWellTyped text)
